@@ -1582,6 +1582,96 @@ class CopyEqSuite(Suite):
     def feature(self, case, h):
         return h.split(" ")[0][:40]
 
+
+class JsonDocSuite(Suite):
+    """slot-level tie of deserializeJson (model AJ/Model/JDD.lean): for texts of every kind (valid, mutated, long strings that make the
+    string builder grow, repeated strings and keys that exercise de-duplication and member reuse) into an empty or a used document, without and
+    with allocation failures at every early position: code, document, bytes consumed, overflowed flag AND the allocator log are compared with
+    the model; independent checks: nothing leaks, a failed allocation is reported (NoMemory or an earlier syntax error, overflowed set),
+    Ok implies not overflowed"""
+    name = "jsondoc"
+
+    def generate(self, rng, tier):
+        cb = cfgbits(self.cfg)
+        n = getattr(self, "n", 1500 if tier == "quick" else 120000)
+        cases = []
+        texts = [b'[1,"abc",{"k":2,"abc":12345678901}]', b'{"a":"hello","b":"hello","a":null,"cc":[1.5,"x",true]}', b'{"k":{"k":{"k":"k"}},"k":"k"}',
+                 b'["' + b"x" * 31 + b'","' + b"y" * 32 + b'","' + b"x" * 31 + b'"]', b'"' + b"z" * 200 + b'"', b'{"' + b"q" * 70 + b'":"' + b"q" * 70 + b'"}',
+                 b"[" + b",".join([b"1"] * 300) + b"]", b"[" + b",".join([b"[]"] * 260) + b"]", b'[4294967296,-2147483649,1.5,0.1,1e300,18446744073709551615]',
+                 b'{a:1,b:\'x\',"a":[]}', b'["\\u00e9\\ud83d\\ude00"]', b"[1,2", b'{"a":1,"b"', b'"unterminated', b"[1 2]", b"  7  ", b"tru", b"[[[[[[[[[[[[1]]]]]]]]]]]]"]
+        fails = ["-"] + ["a%d" % k for k in range(1, 13)] + ["f%d" % k for k in range(1, 7)]
+        for t in texts:
+            for pre in (0, 1):
+                for f in fails:
+                    cases.append(Case("jsondoc %d 10 %d %s %s" % (cb, pre, f, hx(t)), text=t, fail=f))
+        for _ in range(n):
+            r = rng.random()
+            if r < 0.6:
+                _, t = gens.gen_json_doc(rng, maxdepth=rng.choice([1, 2, 3, 4]), budget=rng.choice([3, 8, 14, 30]))
+            elif r < 0.8:
+                _, t = gens.gen_json_doc(rng, maxdepth=3, budget=12)
+                t = gens.mutate(rng, t)
+            else:
+                # many strings from a small pool: de-duplication, builder reuse, growth
+                pool = [b"a", b"bb", b"k" * 31, b"k" * 32, b"m" * 63, b"m" * 64, b"", b"w" * rng.choice([5, 40, 130])]
+                t = b"[" + b",".join(rng.choice([b'"%s"' % rng.choice(pool), b'{"%s":"%s"}' % (rng.choice(pool), rng.choice(pool)), b"1"]) for _ in range(rng.choice([2, 5, 9]))) + b"]"
+            f = rng.choice(fails) if rng.random() < 0.6 else "-"
+            cases.append(Case("jsondoc %d %d %d %s %s" % (cb, rng.choice([10, 10, 3, 50]), rng.choice([0, 0, 1]), f, hx(t)), text=t, fail=f))
+        return cases
+
+    def oracle(self, case, h):
+        o = Suite.oracle(self, case, h)
+        if o:
+            return (o[0], o[1] + " on " + case.line[:100])
+        body, _, log = h.partition("|")
+        f = body.split(" ")
+        if "LEAK" in h:
+            return ("jsondoc:leak", "blocks left after the document was destroyed: " + case.line[:100])
+        code, over = f[0], f[3]
+        failed = "!" in log
+        if failed and (over != "o=1" or code == "Ok"):
+            return ("jsondoc:unreported-failure", "an allocation failed but the result is %s %s: %s" % (code, over, case.line[:100]))
+        if code == "Ok" and over != "o=0":
+            return ("jsondoc:ok-overflowed", "Ok with overflowed(): " + case.line[:100])
+        if code == "NoMemory" and over != "o=1":
+            return ("jsondoc:nomemory-not-flagged", "NoMemory without overflowed(): " + case.line[:100])
+        return None
+
+    def feature(self, case, h):
+        return h.partition("|")[2][:60] + h.split(" ")[0]
+
+
+class MpDocSuite(JsonDocSuite):
+    """slot-level tie of deserializeMsgPack (model AJ/Model/MDD.lean): well-formed objects in arbitrary legal widths (incl. bin/ext, repeated keys,
+    repeated strings: buffer reuse and de-duplication), prefixes, corruptions, hostile headers, into an empty or a used document, without and with
+    allocation failures: code, document, bytes consumed, overflowed flag AND the allocator log are compared with the model; same independent checks"""
+    name = "mpdoc"
+
+    def generate(self, rng, tier):
+        n = getattr(self, "n", 1500 if tier == "quick" else 120000)
+        cases = []
+        fails = ["-"] + ["a%d" % k for k in range(1, 13)] + ["f%d" % k for k in range(1, 7)]
+        fixed = ["93a568656c6c6fa568656c6c6fa26869", "9282a2696401a46e616d65a5616c70686182a2696402a46e616d65a162", "82a16101a16102", "c4021234", "c70301616263", "d40561",
+                 "92cf0000000100000000d3ffffffff7fffffff", "92cb3ff8000000000000ca3fc00000", "dc0105" + "c0" * 261, "d9ff" + "61" * 255, "dbffffffff", "c6ffffffff", "92a3616263", "81", "c1",
+                 "93a0a0a0", "81a0a0", "9192939495969798999a9b9c01"]
+        for hexs_ in fixed:
+            for pre in (0, 1):
+                for f in fails:
+                    cases.append(Case("mpdoc 10 %d %s %s" % (pre, f, hexs_), text=bytes.fromhex(hexs_), fail=f))
+        for _ in range(n):
+            v = mpack.gen_value(rng, dup_keys=True)
+            data = mpack.encode(v, rng)
+            r = rng.random()
+            if r < 0.15 and data:
+                data = data[:rng.randrange(len(data))]
+            elif r < 0.3 and data:
+                b = bytearray(data)
+                b[rng.randrange(len(b))] = rng.getrandbits(8)
+                data = bytes(b)
+            f = rng.choice(fails) if rng.random() < 0.6 else "-"
+            cases.append(Case("mpdoc %d %d %s %s" % (rng.choice([10, 10, 3, 50]), rng.choice([0, 0, 1]), f, hx(data)), text=data, fail=f))
+        return cases
+
 # ================================================================================================ C16: streams
 class StreamSuite(Suite):
     name = "stream"
